@@ -40,6 +40,8 @@ def _series(values, dtype):
     pd = _pd()
     if dtype == "datetime64[ns]":
         return pd.Series(pd.to_datetime(values), dtype="datetime64[ns]") if values else pd.Series([], dtype=dtype)
+    if dtype == "timedelta64[ns]":
+        return pd.Series(pd.to_timedelta(list(values)), dtype="timedelta64[ns]") if values else pd.Series([], dtype=dtype)
     if dtype == "object":
         return pd.Series(list(values), dtype="object")
     if dtype == "category":
